@@ -68,6 +68,27 @@ pub open spec fn raw_piece_text(p: PatternPiece) -> Seq<char> { match p { Patter
 #[verifier::external_body]
 fn requires_expansion(s: &str, enable_extended_globbing: bool) -> (r: bool) ensures r == requires_expansion_spec(s@, enable_extended_globbing) { unimplemented!() }
 ''')
+    u.raw('''// the From impls below carry their contracts as plain `ensures`; no from_spec is claimed for them
+impl vstd::std_specs::convert::FromSpecImpl<PatternWord> for Pattern { open spec fn obeys_from_spec() -> bool { false } open spec fn from_spec(p: PatternWord) -> Self { arbitrary() } }
+impl<'a> vstd::std_specs::convert::FromSpecImpl<&'a PatternWord> for Pattern { open spec fn obeys_from_spec() -> bool { false } open spec fn from_spec(p: &'a PatternWord) -> Self { arbitrary() } }
+impl<'a> vstd::std_specs::convert::FromSpecImpl<&'a str> for Pattern { open spec fn obeys_from_spec() -> bool { false } open spec fn from_spec(p: &'a str) -> Self { arbitrary() } }
+impl vstd::std_specs::convert::FromSpecImpl<String> for Pattern { open spec fn obeys_from_spec() -> bool { false } open spec fn from_spec(p: String) -> Self { arbitrary() } }
+''')
+    u.raw('''// R14: Vec<PatternPiece>::clone (derived Clone of the elements): an equal vector
+#[verifier::external_body]
+pub fn vx_clone_pieces(v: &PatternWord) -> (r: PatternWord) ensures r@ == v@ { unimplemented!() }
+''')
+    # constructors: every way of making a Pattern starts from the defaults — `*` spans newlines (multiline), no extglob, case-sensitive
+    dflt = pt.item(r'^impl Default for Pattern ', 'impl Default for Pattern').r1()
+    dflt.sig('default', ret='r', ensures=[C('C08 a-new-pattern-lets-star-span-newlines-and-has-no-options-set', 'r.multiline && !r.enable_extended_globbing && !r.case_insensitive && r.pieces@.len() == 0')], no_canary=True)
+    u.add(dflt)
+    for hdr, nm in [(r'^impl From<PatternWord> for Pattern ', 'From<PatternWord> for Pattern'), (r'^impl From<&PatternWord> for Pattern ', 'From<&PatternWord> for Pattern'),
+                    (r'^impl From<&str> for Pattern ', 'From<&str> for Pattern'), (r'^impl From<String> for Pattern ', 'From<String> for Pattern')]:
+        it = pt.item(hdr, nm).r1()
+        it.resub(r'\bvalue\.clone\(\)', 'vx_clone_pieces(value)', 'R14', 'Vec<PatternPiece>::clone -> stub (an equal vector)', count=None)
+        it.resub(r'\.\.Default::default\(\)', '..Self::default()', 'R5', '`Default::default()` in a struct update of Self is `Self::default()` (the impl above)', count=None)
+        it.sig('from', ret='r', ensures=[C('C08 every-constructor-keeps-the-defaults-star-spans-newlines', 'r.multiline && !r.enable_extended_globbing && !r.case_insensitive')], no_canary=True)
+        u.add(it)
     g = pt.method_anywhere('to_regex_str').r1().r11()
     g.r13('to_regex_str', 0)
     fn = 'to_regex_str'
